@@ -89,6 +89,30 @@ pub fn is_front_end_failure(o: &Outcome) -> Option<String> {
     }
 }
 
+/// The same symptom anywhere inside the type of a value that contains no function: a record type
+/// with a row variable (`forall a . Option { _1 : Int, _0 : Char | a }`).
+pub fn open_row_inside_value_type(out: &Outcome) -> bool {
+    let ty_text = match out {
+        Outcome::Value { ty, .. } | Outcome::BadShape { ty, .. } => ty.replace('\n', " "),
+        _ => return false,
+    };
+    let t = ty_text.trim();
+    if !t.starts_with("forall") || t.contains("->") {
+        return false;
+    }
+    // `| name }`
+    let mut rest = t;
+    while let Some(p) = rest.find('|') {
+        let after = rest[p + 1..].trim_start();
+        let name: String = after.chars().take_while(|c| c.is_alphanumeric() || *c == '_').collect();
+        if !name.is_empty() && after[name.len()..].trim_start().starts_with('}') {
+            return true;
+        }
+        rest = &rest[p + 1..];
+    }
+    false
+}
+
 /// Symptom of the recorded checker defect KF-C02-01: a record VALUE whose reported type is an open
 /// row (`forall a . { x : Int | a }`).  The row stayed open when it met a closed record and keeps
 /// the open row's field order, so reading the value by its type finds other fields.
